@@ -22,19 +22,13 @@ ASSUME = [
 RULE = ("fields: rendered emulsions + dyadic noise on Cartesian grids d=1..3 (3..10 cells per axis, every periodicity mask; unit box at the "
         "origin, shifted, entirely negative, anisotropic spacing), polar / spherical grids (inner radius 0 or > 0), cylinders (incl. narrow, "
         "shifted, dz != dr); values multiples of 2^-10, every third field shifted so that 0 is an image value inside the range; image data "
-        "float64 / float32 / int64 (16 grey levels); rules extrema/auto/mean/otsu + three numeric thresholds per field (an image value or a "
+        "float64 / float32 / int64 (16 grey levels) / narrow integer types whose extreme values add up beyond the range of the type "
+        "(uint8 10..250, int8 60..127 or -128..-60, int16 5000..32000 or -32768..-5000) / bool -- for integer and bool images the result "
+        "of every rule must also equal that of the same values as float64 (defect F36); rules extrema/auto/mean/otsu + three numeric thresholds per field (an image value or a "
         "dyadic number; exactly zero as int 0 / 0.0 / -0.0 / np.float64 / np.float32 / 0-d array; the image minimum, maximum, a value between "
         "two adjacent image values, an image value as numpy scalar); minimal radii: a radius present, its float neighbours, 0, 0.5, -1, "
         "-inf, +inf; affine maps a=2^k, b dyadic or b = -a*threshold (mapped threshold exactly 0); "
         "non-trivial = mask neither empty nor full; distinct by (field, rule, minimal radius)")
-
-# inputs that make the UNCHANGED tree behave questionably; run and counted in the evidence, not judged (the lead decides)
-SUSPECTED = [
-    "narrow-integer-extrema: for images of a narrow integer dtype (uint8, int8, ...) the 'extrema' / 'auto' threshold "
-    "float(data.min() + data.max()) / 2 adds the extreme values in the image dtype, which wraps around (uint8 image with values 10 and 250: "
-    "threshold 2.0 instead of 130.0, RuntimeWarning 'overflow encountered in scalar add'), so the droplets are not those of the binary "
-    "image exceeding the midpoint of the extreme values",
-]
 
 
 def make_grid(gs: dict):
@@ -81,17 +75,41 @@ def gen_grid_spec(rng: random.Random) -> dict:
             "bounds_z": [z0, z0 + nz * hz], "shape": [nr, nz], "periodic_z": rng.random() < 0.5}
 
 
-IMAGES = ["float64", "float64", "float64", "float32", "int64"]
+IMAGES = ["float64", "float64", "float64", "float32", "int64", "uint8", "int8", "int16", "bool"]
+NP_TYPES = {"float64": np.float64, "float32": np.float32, "int64": np.int64, "uint8": np.uint8, "int8": np.int8, "int16": np.int16,
+            "bool": bool}
+# narrow integer images: grey-level ranges [lo, hi] with lo + hi outside the range of the type (the sum formed in the image
+# dtype wraps around: defect F36)
+NARROW = {"uint8": [(10, 250)], "int8": [(60, 127), (-128, -60)], "int16": [(5000, 32000), (-32768, -5000)]}
 
 
-def as_image(grid, data, image):
-    """coarse dyadic float64 data -> the ScalarField of the given image type (int64: 16 grey levels per unit)"""
+def image_values(rng, data, image):
+    """coarse dyadic float64 data -> the values of the image (float64 array, every value exactly representable in the image
+    type): float types as they are, int64 16 grey levels per unit, narrow integers spread over a range from NARROW (a constant
+    field takes the upper end), bool: cells above the mean"""
+    if image in ("float64", "float32"):     # multiples of 2^-10 below 2^13 are exact in float32
+        return data
+    if image == "int64":
+        return np.round(data * 16)
+    if image == "bool":
+        return (data > data.mean()).astype(np.float64) if data.min() != data.max() else np.full(data.shape, float(rng.random() < 0.5))
+    lo, hi = rng.choice(NARROW[image])
+    span = float(data.max() - data.min())
+    if span == 0:
+        return np.full(data.shape, float(hi))
+    return np.round(lo + (data - data.min()) / span * (hi - lo))
+
+
+def as_image(grid, values, image):
+    """image values (float64 array) -> the ScalarField of the given image type"""
     from pde import ScalarField
     if image == "float64":
-        return ScalarField(grid, data)
-    if image == "float32":    # multiples of 2^-10 below 2^13 are exact in float32
-        return ScalarField(grid, data.astype(np.float32), dtype=np.float32)
-    return ScalarField(grid, np.round(data * 16).astype(np.int64), dtype=np.int64)
+        return ScalarField(grid, values)
+    dt = NP_TYPES[image]
+    cast = values.astype(dt)
+    if not np.array_equal(cast.astype(np.float64), values):
+        raise RuntimeError(f"image values are not representable as {image}")
+    return ScalarField(grid, cast, dtype=dt)
 
 
 def make_field(rng: random.Random, kind=None):
@@ -122,15 +140,15 @@ def make_field(rng: random.Random, kind=None):
         data = data + rng.randrange(-4, 5) / 4.0
     data = np.round(data * 1024) / 1024.0  # coarse dyadic
     image = rng.choice(IMAGES)
-    if image == "int64":
-        data = np.round(data * 16) / 16.0
+    values = image_values(rng, data, image)
     shift = "none"
-    if rng.random() < 0.34:   # 0 becomes an image value inside the range (the extrema midpoint is then not 0 in general)
-        vals = np.unique(data)
-        data = data - float(vals[rng.randrange(len(vals))])
+    if image in ("float64", "float32", "int64") and rng.random() < 0.34:
+        # 0 becomes an image value inside the range (the extrema midpoint is then not 0 in general)
+        vals = np.unique(values)
+        values = values - float(vals[rng.randrange(len(vals))])
         shift = "an image value moved to 0"
     gs["image"], gs["zero_shift"] = image, shift
-    return as_image(grid, data, image), kind + ":" + fam, gs
+    return as_image(grid, values, image), kind + ":" + fam, gs
 
 
 class MaskRecorder:
@@ -210,6 +228,17 @@ def oracle_one(field, rule, mn_r):
     return None
 
 
+def oracle_float64(field, rule, mn_r):
+    """integer / bool images: the result is that of the same values as float64 (every integer here is exact in float64)"""
+    from pde import ScalarField
+    from droplets.image_analysis import locate_droplets
+    e1 = emul_key(locate_droplets(field, threshold=rule, minimal_radius=mn_r))
+    e2 = emul_key(locate_droplets(ScalarField(field.grid, field.data.astype(np.float64)), threshold=rule, minimal_radius=mn_r))
+    if e1 != e2:
+        return f"{field.data.dtype} image: result {e1} differs from that of the same values as float64 {e2}"
+    return None
+
+
 def oracle_affine(field, rule, mn_r, a, b):
     from pde import ScalarField
     from droplets.image_analysis import locate_droplets
@@ -255,7 +284,7 @@ def numeric_rules(rng, flat, image):
     elif k == 2 and len(vals) > 1:
         i = rng.randrange(len(vals) - 1)
         out.append(("float", (vals[i] + vals[i + 1]) / 2, "between two adjacent image values"))
-    elif k == 3 and image == "int64":
+    elif k == 3 and image in ("int64", "uint8", "int8", "int16"):
         out.append(("int", rng.choice(flat), "an image value (Python int)"))
     else:
         out.append(("np.float64", rng.choice(flat), "an image value (numpy scalar)"))
@@ -272,24 +301,28 @@ def minimal_radius_choice(rng, radii):
     return rng.choice(opts)
 
 
-def suspected_probe(ctx):
-    """SUSPECTED[0]: run and counted, not judged"""
-    from pde import CartesianGrid, ScalarField
-    from droplets.image_analysis import locate_droplets
-    import warnings
-    grid = CartesianGrid([(0, 6)], [6])
-    for dt, lo, hi in ((np.uint8, 10, 250), (np.int8, 100, 120), (np.uint8, 10, 100), (np.int16, 100, 30000)):
-        data = np.array([lo, hi, hi, lo, lo, lo], dtype=dt)
-        try:
-            with warnings.catch_warnings():
-                warnings.simplefilter("ignore")
-                got = sorted(round(float(d.radius), 12) for d in locate_droplets(ScalarField(grid, data, dtype=dt), threshold="extrema"))
-            want = sorted(round(float(d.radius), 12) for d in locate_droplets(ScalarField(grid, data.astype(float)), threshold="extrema"))
-            res = "as for the same values in float64" if got == want else "differs from the same values in float64"
-        except Exception as e:  # noqa
-            res = "raises " + type(e).__name__
-        ctx.count("suspected: extrema rule on narrow integer images", f"{np.dtype(dt).name} [{lo}, {hi}]: {res}")
-    ctx.notes.append("SUSPECTED (reported, not judged): " + " | ".join(SUSPECTED))
+def narrow_integer_corpus(ctx, fails):
+    """fixed narrow-integer / bool images (the replay of defect F36 and its relatives): every rule must give the result of the same
+    values as float64 and the droplets of the binary image exceeding the documented threshold"""
+    from pde import CartesianGrid
+    gs = {"family": "cart", "geometry": "origin", "bounds": [[0.0, 6.0]], "shape": [6], "periodic": [False], "zero_shift": "none"}
+    grid = make_grid(gs)
+    for image, lo, hi in (("uint8", 10, 250), ("int8", 100, 120), ("int8", -120, -100), ("uint8", 10, 100), ("int16", 100, 30000),
+                          ("int16", 20000, 30000), ("bool", 0, 1), ("bool", 1, 1), ("uint8", 200, 200)):
+        values = np.array([lo, hi, hi, lo, lo, lo], dtype=np.float64)
+        field = as_image(grid, values, image)
+        for rule in RULES + [float(lo), float(hi), (lo + hi) / 2]:
+            named = isinstance(rule, str)
+            ctx.case(["narrow-integer corpus", image, lo, hi, str(rule)], nontrivial=lo != hi)
+            ctx.count("stream", "narrow-integer corpus")
+            inp = {"data": [float(v) for v in values], "shape": [6], "grid_spec": {**gs, "image": image},
+                   "rule": rule if named else repr(float(rule)), "rule_type": "rule" if named else "float", "minimal_radius": 0.0}
+            try:
+                f = oracle_float64(field, rule, 0.0) or oracle_one(field, rule, 0.0)
+            except Exception as e:  # noqa
+                f = f"locate_droplets raised {type(e).__name__}: {str(e)[:160]}"
+            if f:
+                fails.append({"what": f, "input": inp})
 
 
 def check(ctx: vlib.Ctx) -> int:
@@ -333,6 +366,15 @@ def check(ctx: vlib.Ctx) -> int:
             ctx.count("field_kind", kind)
             ctx.count("grid_geometry", gs["family"] + ": " + gs["geometry"])
             ctx.count("image", gs["image"])
+            ctx.count("stream", "random fields")
+            if gs["image"] in NARROW or gs["image"] == "bool":
+                lo_v, hi_v = min(flat), max(flat)
+                if gs["image"] == "bool":
+                    ctx.count("integer_extremes", "bool " + ("mixed" if lo_v != hi_v else ("all True" if hi_v else "all False")))
+                else:
+                    info = np.iinfo(NP_TYPES[gs["image"]])
+                    ctx.count("integer_extremes", gs["image"] + (": min + max outside the range of the type"
+                                                                 if not info.min <= lo_v + hi_v <= info.max else ": min + max representable"))
             ctx.count("zero_shift", gs["zero_shift"])
             ctx.count("minimal_radius", mn_kind)
             ctx.count("dim", field.grid.dim)
@@ -366,6 +408,11 @@ def check(ctx: vlib.Ctx) -> int:
             f = oracle_one(field, rule, mn_r)
             if f:
                 fails.append({"what": f, "input": dict(base_input)})
+            if gs["image"] not in ("float64", "float32"):
+                f = oracle_float64(field, rule, mn_r)
+                ctx.count("float64_equality_checks", gs["image"])
+                if f:
+                    fails.append({"what": f, "input": dict(base_input)})
             if i % 3 == 0:
                 a = 2.0 ** rng.randrange(-3, 4)
                 if not named and rng.random() < 0.5:
@@ -376,7 +423,7 @@ def check(ctx: vlib.Ctx) -> int:
                 ctx.count("affine_checks", bkind)
                 if f:
                     fails.append({"what": f, "input": {**base_input, "a": a, "b": b}})
-    suspected_probe(ctx)
+    narrow_integer_corpus(ctx, fails)
     ctx.sample({"rule": str(meta[-1][1]), "shape": meta[-1][2], "field": meta[-1][0][:12]})
     header = ("From Coq Require Import QArith List Bool.\nImport ListNotations.\n"
               "From PD Require Import Model.Threshold Model.Pipeline Model.Overlap Model.OverlapCases Gen.Gen_analysis.\n"
@@ -407,7 +454,7 @@ def _replay_field(inp):
     data = np.array(inp["data"]).reshape(shape)
     if "grid_spec" in inp:
         gs = inp["grid_spec"]
-        return as_image(make_grid(gs), data / 16.0 if gs.get("image") == "int64" else data, gs.get("image", "float64"))
+        return as_image(make_grid(gs), np.asarray(data, dtype=np.float64), gs.get("image", "float64"))
     if "grid" in inp and not inp["grid"].startswith("CartesianGrid"):
         import pde
         grid = eval(inp["grid"], {k: getattr(pde, k) for k in ("PolarSymGrid", "SphericalSymGrid", "CylindricalSymGrid")})
@@ -428,6 +475,8 @@ def replay(path: str) -> int:
         mn_r = float(inp["minimal_radius"])
         try:
             f = oracle_one(field, rule, mn_r)
+            if not f and inp.get("grid_spec", {}).get("image", "float64") not in ("float64", "float32"):
+                f = oracle_float64(field, rule, mn_r)
             if not f and "a" in inp:
                 f = oracle_affine(field, rule, mn_r, inp["a"], inp["b"])
         except Exception as e:  # noqa
